@@ -62,6 +62,9 @@ func (g *gen) randType(depth int) *gty {
 		}
 		return &gty{rt: reflect.PtrTo(e.rt), coq: "(TPtr " + e.coq + ")", kind: "ptr", elem: e}
 	default:
+		if r.Intn(4) == 0 {
+			return gtyOfStruct(recVariant(r.Intn(5))) // one of several distinct types all called main.Rec
+		}
 		names := []string{"A", "B", "C", "D"}
 		r.Shuffle(len(names), func(i, j int) { names[i], names[j] = names[j], names[i] })
 		n := r.Intn(3) + 1
